@@ -207,7 +207,7 @@ package run
 //@   ghost before call (*Run).printSummary : assume r.result.snapshot.SuccessfulIterationDurations.Count <= 1000000000000000 && r.result.snapshot.FailedIterationDurations.Count <= 1000000000000000 && r.result.snapshot.DroppedIterationCount <= 1000000000000000 && r.result.runOptions.MaxFailuresRate <= 1000
 //@   ghost before call (*Run).printSummary : assert [summary-after-teardown] GRsetups == 1 ==> GRteardowns == 1 ; GRsummaries = GRsummaries + 1
 //@   ensures [teardown-ran] GRsetups == 1 && GRteardowns == 1 && GRsummaries == 1
-//@   ensures [result] result.1 == nil && result.0 == r.result
+//@   ensures [result] result.0 == r.result && wfResult(r.result)
 //@   ensures [complete] !GRsetupFailed ==> GRstage == 5
 //@
 //@ func (*ScenarioLogger).Close
@@ -232,3 +232,81 @@ package run
 //@   modifies r.snapshot, r.progressStats.successfulIterationDurations, r.progressStats.failedIterationDurations
 //@   ensures [snapshot] (r.snapshot.SuccessfulIterationDurations.Count == NrecS && r.snapshot.FailedIterationDurations.Count == NrecF &&
 //@           r.snapshot.DroppedIterationCount == NrecD && tracks(r.progressStats))
+//@
+//@ // ---- construction of a run (C14 flag path, C08 CLI mapping): NewRun rejects an unknown scenario and otherwise
+//@ // builds a run whose records are well-formed (what Run.Do requires)
+//@ func LogFilePathOrDefault
+//@   props C14 C08 C06
+//@   trusted computes a file name; no effect on modelled state
+//@   modifies nothing
+//@
+//@ func NewScenarioLogger
+//@   props C14 C08 C06
+//@   modifies nothing
+//@   ensures result != nil && fresh(result) && result.output == output
+//@
+//@ func (*ScenarioLogger).Open
+//@   props C14 C08 C06
+//@   trusted opens the log file (or falls back to the default logger); touches only the logger's own fields
+//@   requires s != nil
+//@   modifies s.Logger, s.logFile
+//@
+//@ func NewResult
+//@   props C14 C08 C06
+//@   modifies nothing
+//@   ensures result != nil && fresh(result) && result.views == views && result.progressStats == progressStats && wfResult(result) && len(result.errors) == 0
+//@   ensures result.snapshot.SuccessfulIterationDurations.Count == 0 && result.snapshot.FailedIterationDurations.Count == 0 && result.snapshot.DroppedIterationCount == 0 &&
+//@           result.runOptions.MaxFailuresRate == runOptions.MaxFailuresRate
+//@
+//@ func newMetricsPusher
+//@   props C14 C08 C06
+//@   requires metricsInstance != nil
+//@   modifies nothing
+//@
+//@ func newProgressRunner
+//@   props C14 C08 C06 C05
+//@   unreachable 1
+//@   note block 1 is the error return of raterun.New, which cannot fail for the fixed non-empty schedule list
+//@   requires result != nil && output != nil
+//@   modifies tickerPeriod, timerDelay, timerStopped, closedchans
+//@   ensures [made] retval.1 == nil ==> wfRunner(retval.0) && !closed(retval.0.stopped)
+//@   ensures [rejected] retval.1 != nil ==> retval.0 == nil
+//@
+//@ func NewRun
+//@   props C14 C08 C06 C05
+//@   requires scenarios != nil && trigger != nil && trigger.Trigger != nil && parentOutput != nil && metricsInstance != nil && metricsInstance.Iteration != nil && metricsInstance.Setup != nil
+//@   requires options.Concurrency >= 1
+//@   modifies tickerPeriod, timerDelay, timerStopped, closedchans
+//@   ensures [built] result.1 == nil ==> wfRun(result.0) && !closed(result.0.progressRunner.stopped) && result.0.options.Concurrency == options.Concurrency &&
+//@           wfT(result.0.activeScenario.t) && !result.0.activeScenario.t.tearingDown && !result.0.activeScenario.t.failed && result.0.activeScenario.scenario != nil &&
+//@           result.0.activeScenario.m == metricsInstance && isBound(result.0.activeScenario.Teardown, result.0.activeScenario.t, "teardown") &&
+//@           result.0.result.snapshot.SuccessfulIterationDurations.Count == 0 && result.0.result.snapshot.FailedIterationDurations.Count == 0 && result.0.result.snapshot.DroppedIterationCount == 0
+//@   ensures [rejected] result.1 != nil ==> result.0 == nil
+//@
+//@ // ---- the run command (C14: the flag path refuses a concurrency below 1 and an unknown scenario before anything
+//@ // runs; C08: the command returns an error exactly when the run reported an error or failed)
+//@ ghost var G14ignoreCommon bool
+//@ ghost var G14err bool
+//@ ghost var G14failed bool
+//@ ghost var G14ran bool
+//@
+//@ fnspec builderNew(flags *pflag.FlagSet) (trig *api.Trigger, err error)
+//@   modifies G12R, G12E
+//@   ensures err == nil ==> trig != nil && trig.Trigger != nil
+//@   ensures (err == nil && G14ignoreCommon) ==> trig.Options.Concurrency >= 1
+//@
+//@ func runCmdExecute$1
+//@   props C14 C08
+//@   note cobra validates ExactArgs(1) before RunE is called
+//@   requires len(args) == 1 && cmd != nil && s != nil && output != nil && metricsInstance != nil && metricsInstance.Iteration != nil && metricsInstance.Setup != nil && t.New != nil
+//@   dyncall New : builderNew
+//@   ghost at entry : G14ignoreCommon = t.IgnoreCommonFlags ; G14ran = false ; G14err = false ; G14failed = false
+//@   assert before call NewRun : [at-least-one-worker] arg0.Concurrency >= 1
+//@   ghost before call (*Run).Do : assume run.activeScenario.scenario.ScenarioFn != nil && run.activeScenario.m.Setup != nil && arg1 != nil
+//@   ghost before call (*Run).Do : assume run.result.runOptions.MaxFailuresRate <= 1000
+//@   ghost after call (*Run).Do : G14ran = (ret1 == nil)
+//@   ghost after call (*Result).Error #0 : G14err = (ret0 != nil)
+//@   ghost before call (*Result).Failed : assume arg0.runOptions.MaxFailuresRate <= 1000 && arg0.snapshot.SuccessfulIterationDurations.Count <= 1000000000000000 && arg0.snapshot.FailedIterationDurations.Count <= 1000000000000000 && arg0.snapshot.DroppedIterationCount <= 1000000000000000
+//@   ghost after call (*Result).Failed : G14failed = ret0
+//@   ensures [exit-status] G14ran ==> ((retval == nil) <==> (!G14err && !G14failed))
+//@   ensures [not-run-or-internal-error-is-an-error] !G14ran ==> retval != nil
